@@ -22,6 +22,7 @@ META = {
 
 
 def run(prog, report, tier):
+    meshrules.check_exact_mesh(prog, report)
     stale.check_drivers(prog, report, only={'Mesh.refine_grading'})
     meshrules.check_window(prog, report)
     meshrules.check_entry(prog, report)
